@@ -1013,6 +1013,16 @@ def static_battery():
                           note="another iterator over the same test is dropped after %d rows first" % k))
     b.append(Scenario("A CLK Y Q\nX C 1 2\n", S, mode="both", default_answer=[1, 2], abandon=2, expect={"static": "ok"},
                       note="an iterator dropped in the middle of an X / C expansion leaves nothing behind"))
+    # fourth round: what a fault leaves behind.  Rows after a failed call (driver error, wrong count, wrong order) equal
+    # the static rows - values, changed flags and lines - also where variables shadow device outputs
+    progv = "A CLK Y Q\nlet Q = 7;\nlet Y = 1;\n1 0 X X\n(Q+2) 0 X X\n(Q+2) 0 X X\nloop(i,2)\n(Q+Y+i) 0 X X\nend loop\n(Q+2) C X X\n"
+    for k in (1, 2, 3):
+        b.append(Scenario(progv, S, mode="both", default_answer=[50, 60], fail_at=[k], stop_on_err=False,
+                          expect={"static": "ok", "faulty_calls": [k]}, note="driver error at call %d: later rows equal the static rows" % k))
+        for dev, lay in (("one output fewer", ["Y"]), ("one output more", ["Y", "Q", "Y"]), ("no outputs", []), ("swapped", ["Q", "Y"])):
+            b.append(Scenario(progv, S, mode="both", default_answer=[50, 60], layout=["Y", "Q"], layout_at={k: lay}, stop_on_err=False,
+                              expect={"static": "ok", "faulty_calls": [k]},
+                              note="%s at call %d: variables that shadow outputs stay visible, flags and rows equal the static run" % (dev, k)))
     decl = "A Y V1 V2 V3 V4 V5\n" + "".join("declare V%d = Y + %d;\n" % (k, k) for k in (3, 1, 5, 2, 4)) + "1 X 1 2 3 4 5\n"
     b.append(Scenario(decl, S, mode="both", default_answer=[0, 0], repeat_parse=40, expect={"static": "err", "reparse": True},
                       note="five declarations: repeated parses give equal tests"))
